@@ -935,6 +935,33 @@ def _canonical_generic_names(facts, known_list):
     return facts
 
 
+def _succ_raw(bk):
+    t = bk["term"]
+    k = t["k"]
+    if k == "goto":
+        return [t["t"]]
+    if k == "switch":
+        return list(t["tgts"]) + [t["otherwise"]]
+    if k in ("call", "drop", "assert"):
+        return [t["t"]] if t.get("t") is not None else []
+    return []
+
+
+def _in_cycle(B, bi):
+    """is block bi on a cycle of the (raw) body along normal edges?"""
+    seen = set()
+    stack = list(_succ_raw(B["blocks"][bi]))
+    while stack:
+        n = stack.pop()
+        if n == bi:
+            return True
+        if n in seen:
+            continue
+        seen.add(n)
+        stack.extend(_succ_raw(B["blocks"][n]))
+    return False
+
+
 def _has_loop(C):
     """does the (raw) body have a cycle along normal edges?"""
     succ = {}
@@ -1133,8 +1160,8 @@ def inline_helpers(facts, is_new, max_rounds=4):
                     continue
                 if any(bk["term"]["k"] == "call" and "indirect" not in bk["term"]["func"] and (bk["term"]["func"].get("rpath") or bk["term"]["func"]["path"]) == cal for bk in C["blocks"]):
                     continue   # recursive helper
-                if _has_loop(C):
-                    continue   # a helper with a loop of its own stays a call: inlining it into a caller's loop multiplies the paths
+                if _has_loop(C) and _in_cycle(B, bi):
+                    continue   # a helper with a loop of its own, called from inside a loop, stays a call: nesting multiplies the paths
                 lo = len(B["locals"])
                 bo = len(B["blocks"])
                 _SUB.clear()
